@@ -388,6 +388,82 @@ def check_lookup(ctx, tool):
                nontrivial=False)
 
 
+def check_target(ctx, tool, ev):
+    """The target handed to the rules is exactly what the files say."""
+    prog = ctx.prog
+    t = Table(prog, tool)
+    W = ctx.where(tool.module, tool.node)
+    tf_param = 'target_file' if 'target_file' in tool.params else None
+    flat = prog.functions.get(SHELL + '.flatten')
+    if tf_param is None or flat is None:
+        raise AnalysisError('target_file parameter / flatten helper '
+                            'vanished')
+    tpos = ev.params.index('target') if 'target' in ev.params else 2
+    bad = None
+    n_file = n_default = 0
+    for p in t.paths:
+        given = [c for c in p.conds if c.kind == 'test'
+                 and U(c.expr) == tf_param]
+        for e in p.events:
+            if e.kind != 'call' or prog.callee_of(tool, e.node) is not ev:
+                continue
+            if not given:
+                bad = bad or (p, 'the target does not depend on whether a '
+                              'target file was given')
+                continue
+            a = e.node.args[tpos] if len(e.node.args) > tpos else None
+            ax = t.expand(a) if a is not None else None
+            if given[0].pol:
+                n_file += 1
+                ok = isinstance(ax, ast.Call) and prog.callee_of(
+                    tool, ax) is flat and len(ax.args) == 1 and isinstance(
+                        ax.args[0], ast.Call) and (prog.resolve(
+                            tool.module, ax.args[0].func) or '').endswith(
+                                ('jsonutils.loads', 'json.loads'))
+                if not ok:
+                    bad = bad or (p, 'with a target file the rules are not '
+                                  'evaluated against exactly the flattened '
+                                  'contents of that file (got %s)' % (
+                                      U(ax)[:80] if ax is not None else None))
+            else:
+                n_default += 1
+                ok = isinstance(ax, ast.Dict) and any(
+                    is_const(k, 'user_id') for k in ax.keys)
+                if not ok:
+                    bad = bad or (p, 'without a target file the default '
+                                  'target is not the token\'s own user / '
+                                  'project (got %s)' % (
+                                      U(ax)[:80] if ax is not None else None))
+    ctx.ob('C19.TARGET', bad is None and n_file > 0 and n_default > 0, W,
+           tool.qual, 'target derivation (%d file paths, %d default paths)'
+           % (n_file, n_default),
+           'the target is the flattened target file when one is given, '
+           'else the token\'s own user/project' if bad is None else
+           bad[1] + ' (path: %s)' % bad[0].cond_text()[-200:])
+    # flatten keeps every leaf
+    tfl = Table(prog, flat)
+    dropped = None
+    n = 0
+    for p in tfl.paths:
+        if not any(c.kind == 'loop' and c.pol for c in p.conds):
+            continue
+        n += 1
+        adds = [e for e in p.events if e.kind == 'call' and method_call(
+            e.node) and method_call(e.node)[1] in ('append', 'extend',
+                                                   'update', '__setitem__')]
+        stores = [e for e in p.events if e.kind == 'store']
+        if not adds and not stores:
+            dropped = p
+    ctx.ob('C19.TARGET', dropped is None and n > 0, ctx.where(
+        flat.module, flat.node), flat.qual,
+        'flatten keeps every entry (%d element paths)' % n,
+        'every key of the target file reaches the flat target, whatever '
+        'its value' if dropped is None and n else
+        'flatten drops an entry on path %s: rules that test that '
+        'attribute decide differently from the library' % (
+            dropped.cond_text()[-200:] if dropped else 'none'))
+
+
 def check(ctx):
     prog = ctx.prog
     ctx.use(SHELL, POLICY, CHECKS, PKG + '.opts')
@@ -407,3 +483,4 @@ def check(ctx):
     check_iter(ctx, tool, ev)
     check_duck(ctx)
     check_lookup(ctx, tool)
+    check_target(ctx, tool, ev)
